@@ -5,6 +5,13 @@ HERE = os.path.dirname(os.path.dirname(os.path.abspath(__file__)))
 ALL = [f"C{i:02d}" for i in range(1, 19)]
 # property -> (technique, level text, level note, design_ref)
 CHECKS = {
+ "C15": ("runtime trace monitor at the user loss_fn boundary (row tags, parameter-version counter, key words via ordered host "
+         "callbacks) + icontract contracts on the real train_val_split/get_batches; offline history checker",
+         "Exploration: hundreds (quick) / thousands (thorough) of sampled (n, batch_size, val_prop, condition, epochs, key) "
+         "configurations of the real fit_to_data are run and the complete loss-call history of each is checked for partition, "
+         "pairing, at-most-once use, remainder size, no validation row in a gradient step, key freshness and same-key determinism.",
+         "Trusts ordered jax.debug.callback delivery; rows are identified by tags embedded in the data; split size accepted within 1 of val_prop*n.",
+         "DESIGN.md 4/C15"),
  "C16": ("runtime history monitor: scripted loss + counting optimiser drive the real training loops; "
          "recorded loss-call trace and returned parameter version checked against a sequential reference model",
          "Exploration: every ordering of distinct losses up to length 5 (quick) / 7 (thorough) x all patience/epoch/"
